@@ -17,6 +17,12 @@ Two semantics are given:
 * `Stmt`, `prog`, `srun` — the *corresponding structured program*: the three-phase lifecycle is
   compiled into one program over `prim | seq | while | if | scoped`, with a textbook semantics.
 `Proofs/C03.lean` shows they coincide.
+
+`Comp.scopeW id si mg b` is `Scope::new_with(state_init, body, states_merge)` with *scripted hooks*:
+`state_init` records `(init, id)`, may fail, and otherwise performs the `init`-tagged actions `si`
+on the fresh child state; `states_merge` records `(exec, id)`, may fail, and otherwise copies
+`Kb := child.Ka` into the caller's top scope for every `(a, b) ∈ mg` whose `Ka` the child's own map
+holds. `Comp.scope b` is `Scope::new` (the hooks are the constant `Ok(())` and leave no event).
 -/
 import MahfModel.Model.Sexp
 namespace MahfModel.Config
@@ -167,6 +173,16 @@ def step (s : Script) (ev : Ev) (eff : Reg → Option Reg) (σ : St) : St × Res
 def leafEff (ph : Phase) (acts : List Act) : Reg → Option Reg := fun r => some (applyActs ph acts r)
 def needEff (acts : List Act) : Reg → Option Reg := fun r => if acts.all (Act.needOk r) then some r else none
 
+/-- `states_merge(parent, inner)` of a hooked scope: for every `(a, b)`, if the detached child `m`
+holds `Ka = v` then `parent.insert(Kb(v))` (top scope of the restored parent). -/
+def exportKeys (m : Scope) (mg : List (Nat × Nat)) (p : Reg) : Reg :=
+  mg.foldl (fun p ab => match m.get? ab.1 with | some v => p.insert ab.2 v | none => p) p
+
+/-- The same merge seen from inside the still-open scope (`m` = child map on top of the parent `p`). -/
+def mergeEff (mg : List (Nat × Nat)) : Reg → Option Reg
+  | [] => some []
+  | m :: p => some (m :: exportKeys m mg p)
+
 /-- `ScriptCond::evaluate`. -/
 def evalLeaf (s : Script) (id : Nat) (σ : St) : St × CRes :=
   let n := σ.tr.count (Phase.ceval, id)
@@ -238,6 +254,8 @@ mutual
     | loop (c : Cond) (b : Comp)
     | branch (c : Cond) (t : Comp) (e : Comp) (hasElse : Bool)   -- `e` is ignored unless `hasElse`
     | scope (b : Comp)
+    /-- `Scope::new_with` with scripted hooks `id`: `state_init` performs `si`, `states_merge` exports `mg`. -/
+    | scopeW (id : Nat) (si : List Act) (mg : List (Nat × Nat)) (b : Comp)
   inductive Comps where
     | nil
     | cons (c : Comp) (cs : Comps)
@@ -256,6 +274,7 @@ mutual
       andThen (condPhase s .cinit c σ) fun σ1 =>
         andThen (initC s t σ1) fun σ2 => if he then initC s e σ2 else (σ2, .ok)
     | .scope _, σ => (σ, .ok)
+    | .scopeW _ _ _ _, σ => (σ, .ok)
   def initCs (s : Script) : Comps → St → St × Res
     | .nil, σ => (σ, .ok)
     | .cons c cs, σ => andThen (initC s c σ) (initCs s cs)
@@ -271,6 +290,7 @@ mutual
       andThen (condPhase s .creq c σ) fun σ1 =>
         andThen (reqC s t σ1) fun σ2 => if he then reqC s e σ2 else (σ2, .ok)
     | .scope _, σ => (σ, .ok)
+    | .scopeW _ _ _ _, σ => (σ, .ok)
   def reqCs (s : Script) : Comps → St → St × Res
     | .nil, σ => (σ, .ok)
     | .cons c cs, σ => andThen (reqC s c σ) (reqCs s cs)
@@ -291,6 +311,14 @@ def loopN (cond : St → St × CRes) (body : St → St × Res) : Nat → St → 
     | (σ1, .val false) => (σ1, .ok)
     | (σ1, .val true) => andThen (andThen (body σ1) bump) (loopN cond body n)
 
+/-- The tail of `Scope::execute` after the closure handed to `with_inner_state` returned `x`:
+the caller's registry is restored first (`pop`); an `Err` of the closure is propagated (`?`) and
+`states_merge` is not called; on `Ok` the merge hook runs on the restored state with the detached
+child (its own map only) and its result is the result. -/
+def closeMerge (s : Script) (id : Nat) (mg : List (Nat × Nat)) : St × Res → St × Res
+  | (σ2, .ok) => step s (.exec, id) (fun p => some (exportKeys (σ2.reg.headD []) mg p)) (pop σ2)
+  | (σ2, r) => (pop σ2, r)
+
 mutual
   /-- `Component::execute`. -/
   def exec (s : Script) (fuel : Nat) : Comp → St → St × Res
@@ -308,6 +336,11 @@ mutual
       -- closure, restore the parent registry, and only then propagate the closure's result.
       match andThen (initC s b (push σ)) (fun σ1 => andThen (reqC s b σ1) (exec s fuel b)) with
       | (σ2, r) => (pop σ2, r)
+    | .scopeW id si mg b, σ =>
+      -- the closure: `state_init(child)?; body.init?; body.require?; body.execute?`
+      closeMerge s id mg
+        (andThen (step s (.init, id) (leafEff .init si) (push σ)) fun σ0 =>
+          andThen (initC s b σ0) (fun σ1 => andThen (reqC s b σ1) (exec s fuel b)))
   def execs (s : Script) (fuel : Nat) : Comps → St → St × Res
     | .nil, σ => (σ, .ok)
     | .cons c cs, σ => andThen (exec s fuel c σ) (execs s fuel cs)
@@ -333,11 +366,13 @@ inductive Op where
   | prim (ev : Ev) (acts : List Act)   -- one leaf call
   | counter0                            -- `Iterations := 0` in the current scope
   | bump                                -- `Iterations += 1`
+  | merge (id : Nat) (mg : List (Nat × Nat))   -- the merge hook of a scope, as its last statement
 
 def opRun (s : Script) : Op → St → St × Res
   | .prim ev acts, σ => step s ev (effOf ev.1 acts) σ
   | .counter0, σ => (newCounter σ, .ok)
   | .bump, σ => bump σ
+  | .merge id mg, σ => step s (.exec, id) (mergeEff mg) σ
 
 inductive Stmt where
   | skip
@@ -388,6 +423,7 @@ mutual
     | .loop c b => .seq (.atom .counter0) (.seq (condProg .cinit c) (initProg b))
     | .branch c t e he => .seq (condProg .cinit c) (.seq (initProg t) (if he then initProg e else .skip))
     | .scope _ => .skip
+    | .scopeW _ _ _ _ => .skip
   def initProgs : Comps → Stmt
     | .nil => .skip
     | .cons c cs => .seq (initProg c) (initProgs cs)
@@ -400,6 +436,7 @@ mutual
     | .loop c b => .seq (condProg .creq c) (reqProg b)
     | .branch c t e he => .seq (condProg .creq c) (.seq (reqProg t) (if he then reqProg e else .skip))
     | .scope _ => .skip
+    | .scopeW _ _ _ _ => .skip
   def reqProgs : Comps → Stmt
     | .nil => .skip
     | .cons c cs => .seq (reqProg c) (reqProgs cs)
@@ -412,6 +449,9 @@ mutual
     | .loop c b => .seq (condProg .cinit c) (.loop c (.seq (execProg b) (.atom .bump)))
     | .branch c t e he => .ite c (execProg t) (if he then execProg e else .skip)
     | .scope b => .inScope (.seq (initProg b) (.seq (reqProg b) (execProg b)))
+    | .scopeW id si mg b =>
+      .inScope (.seq (.atom (.prim (.init, id) si))
+        (.seq (.seq (initProg b) (.seq (reqProg b) (execProg b))) (.atom (.merge id mg))))
   def execProgs : Comps → Stmt
     | .nil => .skip
     | .cons c cs => .seq (execProg c) (execProgs cs)
@@ -455,6 +495,9 @@ mutual
     | .loop c b => L && C c && b.sat A C L
     | .branch c t e he => C c && t.sat A C L && (!he || e.sat A C L)
     | .scope b => b.sat A C L
+    -- a hooked scope qualifies only if its merge exports nothing (exports are the subject of
+    -- dedicated theorems); its `state_init` actions count like leaf actions
+    | .scopeW _ si mg b => mg.isEmpty && si.all A && b.sat A C L
   def Comps.sat (A : Act → Bool) (C : Cond → Bool) (L : Bool) : Comps → Bool
     | .nil => true
     | .cons c cs => c.sat A C L && cs.sat A C L
@@ -468,6 +511,7 @@ mutual
     | .loop _ _ => true
     | .branch _ t e he => t.hasLoop || (he && e.hasLoop)
     | .scope _ => false
+    | .scopeW _ _ _ _ => false
   def Comps.hasLoop : Comps → Bool
     | .nil => false
     | .cons c cs => c.hasLoop || cs.hasLoop
@@ -477,6 +521,7 @@ def Op.sat (A : Act → Bool) (L : Bool) : Op → Bool
   | .prim ev acts => ev.1 != .ceval && acts.all A
   | .counter0 => L
   | .bump => L
+  | .merge _ mg => mg.isEmpty
 
 /-- Every atomic statement satisfies `φ`, every tested condition satisfies `C`. -/
 def Stmt.all (φ : Op → Bool) (C : Cond → Bool) : Stmt → Bool
@@ -522,6 +567,7 @@ mutual
     | .loop c b => condEvents cph c ++ phaseEvents ph cph b
     | .branch c t e he => condEvents cph c ++ phaseEvents ph cph t ++ (if he then phaseEvents ph cph e else [])
     | .scope _ => []
+    | .scopeW _ _ _ _ => []
   def phaseEventss (ph cph : Phase) : Comps → List Ev
     | .nil => []
     | .cons c cs => phaseEvents ph cph c ++ phaseEventss ph cph cs
@@ -552,6 +598,7 @@ mutual
     | .loop c b => !condDefault s c && loopsStop s b
     | .branch _ t e he => loopsStop s t && (!he || loopsStop s e)
     | .scope b => loopsStop s b
+    | .scopeW _ _ _ b => loopsStop s b
   def loopsStops (s : Script) : Comps → Bool
     | .nil => true
     | .cons c cs => loopsStop s c && loopsStops s cs
@@ -589,7 +636,8 @@ def parseCond : Nat → Sexp → Option Cond
     | .list [.atom "not", c] => (parseCond n c).map Cond.not
     | _ => none
 
-/-- `T ∈ (leaf id act*) (blk T*) (while C T) (if C T) (ifelse C T T) (scope T)`. -/
+/-- `T ∈ (leaf id act*) (blk T*) (while C T) (if C T) (ifelse C T T) (scope T)
+(scopew id (sinit act*) (merge (mv a b)*) T)`. -/
 def parseComp : Nat → Sexp → Option Comp
   | 0, _ => none
   | n + 1, x =>
@@ -603,6 +651,11 @@ def parseComp : Nat → Sexp → Option Comp
     | .list [.atom "ifelse", c, t, e] => do
       pure (.branch (← parseCond 64 c) (← parseComp n t) (← parseComp n e) true)
     | .list [.atom "scope", t] => (parseComp n t).map Comp.scope
+    | .list [.atom "scopew", id, .list (.atom "sinit" :: si), .list (.atom "merge" :: mg), t] => do
+      let mv (x : Sexp) : Option (Nat × Nat) := match x with
+        | .list [.atom "mv", a, b] => do pure (← nat? a, ← nat? b)
+        | _ => none
+      pure (.scopeW (← nat? id) (← si.mapM Act.parse?) (← mg.mapM mv) (← parseComp n t))
     | _ => none
 
 /-- `(script (cond id default b*)* (fail phase id occ)*)` -/
@@ -658,16 +711,19 @@ mutual
     | .branch c t e he =>
       if he then .list [.atom "ifelse", c.shape, t.shape, e.shape] else .list [.atom "if", c.shape, t.shape]
     | .scope b => .list [.atom "scope", b.shape]
+    | .scopeW _ _ _ b => .list [.atom "scope", b.shape]   -- the hooks are `#[serde(skip)]`
   def Comps.shapes : Comps → List Sexp
     | .nil => []
     | .cons c cs => c.shape :: cs.shapes
 end
 
-def outSexp (c : Comp) (σ : St) (r : Res) : Sexp :=
+/-- `lost`: the caller never gets the state back (`optimize_with` returned `Err`). -/
+def outSexp (c : Comp) (σ : St) (r : Res) (lost : Bool := false) : Sexp :=
   .list [ .list (.atom "trace" :: σ.trace.map fun e => .list [.atom e.1.name, ofNat e.2]),
           .list [.atom "res", r.toSexp],
-          .list [.atom "depth", ofNat σ.reg.length],
-          .list (.atom "dump" :: σ.reg.map fun m => .list (m.sorted.map fun e => .list [ofNat e.1, ofNat e.2])),
+          (if lost then .list [.atom "depth", .atom "-"] else .list [.atom "depth", ofNat σ.reg.length]),
+          (if lost then .list [.atom "dump", .atom "-"] else
+            .list (.atom "dump" :: σ.reg.map fun m => .list (m.sorted.map fun e => .list [ofNat e.1, ofNat e.2]))),
           .list [.atom "built", c.shape] ]
 
 structure Case where
@@ -675,16 +731,25 @@ structure Case where
   script : Script
   pre : Reg
   fuel : Nat
+  /-- how the harness builds and runs the tree: `run` (builder / constructors, `Configuration::run`),
+  `alt` (the other public construction paths, a clone of the configuration is run), `opt`
+  (`Configuration::optimize_with`: the final state is only returned on `Ok`) -/
+  via : String := "run"
 
-/-- Input `((tree T) (script …) (pre …))`. -/
+def parseCase3 (t : Sexp) (sc pre : List Sexp) (via : String) : Option Case := do
+  let comp ← parseComp 256 t
+  let script ← parseScript sc
+  let pre ← parsePre pre
+  -- one loop execution makes at most (number of scripted values) passes
+  let fuel := (script.conds.map fun e => e.2.2.length).foldl (· + ·) 2
+  pure { comp, script, pre, fuel, via }
+
+/-- Input `((tree T) (script …) (pre …))` or `((tree T) (script …) (pre …) (via run|alt|opt))`. -/
 def parseCase : Sexp → Option Case
-  | .list [.list [.atom "tree", t], .list (.atom "script" :: sc), .list (.atom "pre" :: pre)] => do
-    let comp ← parseComp 256 t
-    let script ← parseScript sc
-    let pre ← parsePre pre
-    -- one loop execution makes at most (number of scripted values) passes
-    let fuel := (script.conds.map fun e => e.2.2.length).foldl (· + ·) 2
-    pure { comp, script, pre, fuel }
+  | .list [.list [.atom "tree", t], .list (.atom "script" :: sc), .list (.atom "pre" :: pre)] =>
+    parseCase3 t sc pre "run"
+  | .list [.list [.atom "tree", t], .list (.atom "script" :: sc), .list (.atom "pre" :: pre),
+      .list [.atom "via", .atom v]] => parseCase3 t sc pre v
   | _ => none
 
 def illFormed : Sexp := .list [.list [.atom "res", .atom "illformed"]]
@@ -697,6 +762,6 @@ def handleCase (input : Sexp) : Option (Sexp × Sexp × Case) := do
     let σ0 : St := { reg := c.pre, tr := [] }
     let (σm, rm) := run c.script c.fuel c.comp σ0
     let (σs, rs) := srun c.script c.fuel (prog c.comp) σ0
-    pure (outSexp c.comp σm rm, outSexp c.comp σs rs, c)
+    pure (outSexp c.comp σm rm (c.via == "opt" && rm != .ok), outSexp c.comp σs rs (c.via == "opt" && rs != .ok), c)
 
 end MahfModel.Config
